@@ -102,6 +102,8 @@ PROP = dict(
     cases=dict(quick=1800, thorough=14400),
     level="proof",
     harness_timeout=2400,
+    coqc_timeout=3000,      # per shard; ~10 s of CPU, but the machine is shared
+
     rule="inputs drawn from 2-D and 3-D grids (sides 1..12, incl. 1 x n, n x 1, 1 x 1 x n, cubes, and long thin 2-D grids up "
          "to 8 x 100; at most 600 cells in the quick tier, 1728 in the thorough tier), iter_count 0..6, three weight streams: "
          "(a) i64 -- 11 families (uniform, sparse, skewed, all-zero, one dominant, random, gradient, two clusters, large < 2^46, "
